@@ -77,6 +77,7 @@ type Quiescer struct {
 	BusyBase int64 // busy-counter value when the execution started (normally 0)
 	Preds    []IdleFn
 	Barrier  func() // actor-mailbox barrier (round trip through the manager loops); may be nil
+	Stalled  func() int64 // senders deliberately blocked inside the network (each pins one message queue); may be nil
 }
 
 var liveQueues, queueExits int64
@@ -127,11 +128,21 @@ func AwaitTeardown(d time.Duration) bool {
 
 // idleOnce evaluates the logical predicate once.
 func (q *Quiescer) idleOnce() (bool, string) {
-	if n := verifhook.BusyCount() - q.BusyBase; n != 0 {
+	// Stalled reports senders that are deliberately blocked inside the network: each one pins one
+	// message queue in sendMessage (busy +1) and that queue may keep queued messages.
+	excused := int64(0)
+	if q.Stalled != nil {
+		excused = q.Stalled()
+	}
+	if n := verifhook.BusyCount() - q.BusyBase - excused; n != 0 {
 		return false, fmt.Sprintf("busy counter %d", n)
 	}
-	if verifhook.ProbesBusy() {
-		return false, "a message queue has queued messages"
+	if excused == 0 {
+		if verifhook.ProbesBusy() {
+			return false, "a message queue has queued messages"
+		}
+	} else if int64(verifhook.ProbesBusyCount()) > excused {
+		return false, "a message queue that is not stalled has queued messages"
 	}
 	for _, p := range q.Preds {
 		if ok, why := p(); !ok {
